@@ -30,7 +30,9 @@ Ltac inv_some :=
   repeat match goal with H : Some _ = Some _ |- _ => inversion H; subst; clear H end.
 
 Ltac wf_rq := unfold rq_wf, f1_q, tail_q, lnk in *; simpl in *;
-  intuition (try discriminate; inv_some; eauto; try lia).
+  intuition (try discriminate; inv_some;
+             try match goal with H : pc_target (f1_pc _ _) = Some _ |- _ => apply f1_pc_target in H; subst end;
+             eauto; try lia).
 
 Ltac fr_in WFr :=
   let Hi := fresh "Hi" in
